@@ -9,29 +9,30 @@ package hpke
 
 //@ ghost hseq(r any) int
 //@ ghost hid(r any) int
-//@ ghostfn hsetupOk(kem int, kdf int, aead int, priv int, info []byte, enc []byte) bool
-//@ ghostfn hsetup(kem int, kdf int, aead int, priv int, info []byte, enc []byte) int
-//@ ghostfn hopens(id int, seq int, aad []byte, ct []byte) bool
-//@ ghostfn hplain(id int, seq int, aad []byte, ct []byte) []byte
-//@ ghostfn hprivOk(kem int, b []byte) bool
-//@ ghostfn hprivOf(kem int, b []byte) int
+// All byte-string arguments enter the algebra through cid(.), the identity of their content.
+//@ ghostfn hsetupOk(kem int, kdf int, aead int, priv int, info int, enc int) bool
+//@ ghostfn hsetup(kem int, kdf int, aead int, priv int, info int, enc int) int
+//@ ghostfn hopens(id int, seq int, aad int, ct int) bool
+//@ ghostfn hplain(id int, seq int, aad int, ct int) []byte
+//@ ghostfn hprivOk(kem int, b int) bool
+//@ ghostfn hprivOf(kem int, b int) int
 
 //@ func ParseHPKEPrivateKey returns (priv, err)
 //@   trusted
-//@   ensures hprivOk(int(kemID), bytes) ==> err == nil && priv != nil && priv == hprivOf(int(kemID), bytes)
-//@   ensures !hprivOk(int(kemID), bytes) ==> err != nil && liberr(err) && priv == nil
+//@   ensures hprivOk(int(kemID), cid(bytes)) ==> err == nil && priv != nil && priv == hprivOf(int(kemID), cid(bytes))
+//@   ensures !hprivOk(int(kemID), cid(bytes)) ==> err != nil && liberr(err) && priv == nil
 
 //@ func SetupReceipient returns (r, err)
 //@   trusted
 //@   allocates Receipient
 //@   modifies hseq(r), hid(r)
-//@   ensures hsetupOk(int(kemID), int(kdfID), int(aeadID), priv, info, encPubEph) ==> err == nil && r != nil && fresh(r) && hseq(r) == 0 && hid(r) == hsetup(int(kemID), int(kdfID), int(aeadID), priv, info, encPubEph)
-//@   ensures !hsetupOk(int(kemID), int(kdfID), int(aeadID), priv, info, encPubEph) ==> err != nil && liberr(err) && r == nil
+//@   ensures hsetupOk(int(kemID), int(kdfID), int(aeadID), priv, cid(info), cid(encPubEph)) ==> err == nil && r != nil && fresh(r) && hseq(r) == 0 && hid(r) == hsetup(int(kemID), int(kdfID), int(aeadID), priv, cid(info), cid(encPubEph))
+//@   ensures !hsetupOk(int(kemID), int(kdfID), int(aeadID), priv, cid(info), cid(encPubEph)) ==> err != nil && liberr(err) && r == nil
 
 //@ func Receipient.Open returns (pt, err)
 //@   trusted
 //@   requires r != nil
 //@   requires[S:nonce-limit] 0 <= hseq(r) && hseq(r) < 1000000
 //@   modifies hseq(r)
-//@   ensures hopens(hid(r), old(hseq(r)), aad, ciphertext) ==> err == nil && hseq(r) == old(hseq(r)) + 1 && !isnil(pt) && pt == hplain(hid(r), old(hseq(r)), aad, ciphertext)
-//@   ensures !hopens(hid(r), old(hseq(r)), aad, ciphertext) ==> err != nil && liberr(err) && isnil(pt) && hseq(r) == old(hseq(r))
+//@   ensures hopens(hid(r), old(hseq(r)), cid(aad), cid(ciphertext)) ==> err == nil && hseq(r) == old(hseq(r)) + 1 && !isnil(pt) && bytesEq(pt, hplain(hid(r), old(hseq(r)), cid(aad), cid(ciphertext)))
+//@   ensures !hopens(hid(r), old(hseq(r)), cid(aad), cid(ciphertext)) ==> err != nil && liberr(err) && isnil(pt) && hseq(r) == old(hseq(r))
